@@ -236,7 +236,15 @@ def normalize_event(d, sites):
     o['thr'], o['thrv'] = parse_thr(d['thr'])
     o['reps'] = [parse_report(r, sites) for r in d['reps']]
     o['oks'] = [dict(r=k['r'], ent=sites.slot_of_name(k['msg'])) for k in d['oks']]
-    o['trs'] = [parse_trace_msg(t, sites) for t in d['trs']]
+    trs = []
+    for t in d['trs']:
+        if t['file'] == '<stream>':
+            # a stream_tracer's buffer may hold several records (nested calls): each starts with its file:line line
+            parts = re.split(r'(?m)^(?=\S+?\.cpp:\d+\n)', t['msg'])
+            trs += [dict(t, msg=p) for p in parts if p]
+        else:
+            trs.append(t)
+    o['trs'] = [parse_trace_msg(t, sites) for t in trs]
     o['cl'] = d['cl']
     o['probe'] = d['probe']
     o['fl'] = d.get('fl', [])
